@@ -119,7 +119,7 @@ def gen_wellformed(kind: str) -> t.Iterator[t.Tuple[t.Any, t.Callable[[], t.Any]
         sizes = [(sl, tl_) for sl in range(0, 41) for tl_ in TRAILERS]
         sizes += [(32743, None), (32744, None), (32745, None), (32720, 16), (40000, None), (40000, 16), (65511 - (8 if kind == "fault" else 0), None), (0, 32767), (0, 32768), (8, 40000), (0, 65503 - (8 if kind == "fault" else 0))]
         for slen, tl in sizes:
-            for obj in ((None, U2) if kind == "request" and slen < 65000 and (tl or 0) < 65000 else (None,)):
+            for obj in ((None, U2, uuid.UUID(int=0)) if kind == "request" and slen < 65000 and (tl or 0) < 65000 else (None,)):
                 for _once in (0,):
                     stub = bytes((i * 5 + 2) & 0xFF for i in range(slen))
                     tr_obj, tr_ref = trailer_pair(R, tl)
@@ -143,7 +143,7 @@ def gen_wellformed(kind: str) -> t.Iterator[t.Tuple[t.Any, t.Callable[[], t.Any]
                         def mk(stub=stub, tr_obj=tr_obj, ref=ref, tl=tl, slen=slen):
                             return R.Fault(header=hdr(R, 3, 3, len(ref), tl or 0), sec_trailer=tr_obj, alloc_hint=1000 + slen, context_id=2, cancel_count=1, status=0x1C010003, flags=R.FaultFlags(1), stub_data=stub)
 
-                    yield [kind, slen, bool(obj), tl], mk, ref, R._pdu.PDU.unpack
+                    yield [kind, slen, ("nil" if obj is not None and obj.int == 0 else bool(obj)), tl], mk, ref, R._pdu.PDU.unpack
     elif kind == "sectrailer":
         for prov in R.SecurityProvider:
             for lvl in R.AuthenticationLevel:
@@ -353,7 +353,7 @@ def shards(tier: str, seed: int):
     out = [["wf", k] for k in WF_KINDS]
     out += [["prefix", k] for k in WF_KINDS]
     out += [["subst", k] for k in WF_KINDS]
-    out += [["noend"], ["gk"]]
+    out += [["noend"], ["gk"], ["manyunknown"]]
     out += [["mixed", part] for part in range(4)]
     out += [["short", name] for name in ("PDU", "SecTrailer", "VerificationTrailer", "Command", "Floor", "EptMap", "EptMapResult", "GetKey.unpack", "GetKey.unpack_response")]
     return out
@@ -497,6 +497,41 @@ def run_shard(shard, tier, seed, acc) -> None:
         acc.transitions += n * 3
         acc.outcome("mixed-sequences-ok", n)
         acc.sample({"cross-codec sequence": [reps[0][0], reps[-1][0], reps[len(reps) // 2][0]], "representatives": len(reps)})
+    elif what == "manyunknown":
+        # one process decodes MANY distinct values that the library has no name for (verification-trailer command types over the 14-bit
+        # space, tower floor protocol ids over all 8 bits), then the first ones again: the n-th unknown value is handled like the first
+        R, E, G = M()
+        n = 0
+        types = [t_ for t_ in range(4, 0x4000, 23)] + [0x3FFF]
+        for rnd in (0, 1):
+            for ty in (types if rnd == 0 else types[:40]):
+                for ln in (0, 3):
+                    ref = rpc.enc_vt([(1, 0, struct.pack("<I", 1)), (ty, rpc.VT_END, bytes(range(ln)))])
+                    n += 1
+                    try:
+                        obj = R.VerificationTrailer.unpack(ref)
+                        if bytes(obj.pack()) != ref:
+                            acc.violate("manyunknown.vt.repack", ["manyunknown", "vt", ty, ln, rnd], {"got": bytes(obj.pack()).hex()})
+                    except Exception as e:  # noqa: BLE001
+                        acc.violate(f"manyunknown.vt.exc.{type(e).__name__}", ["manyunknown", "vt", ty, ln, rnd], {"exc": repr(e), "distinct_unknown_types_so_far": types.index(ty) if ty in types else -1})
+                        if acc.too_many(50):
+                            break
+            for pid in range(256):
+                raw = struct.pack("<HB", 1, pid) + struct.pack("<H", 2) + b"\x12\x34"
+                n += 1
+                try:
+                    fl = E.Floor.unpack(raw) if hasattr(E.Floor, "unpack") else None
+                    if fl is not None and bytes(fl.pack()) != raw and pid not in (0x07, 0x08, 0x09, 0x0B, 0x0D, 0x0F):
+                        acc.violate("manyunknown.floor.repack", ["manyunknown", "floor", pid, rnd], {"got": bytes(fl.pack()).hex(), "raw": raw.hex()})
+                except Exception as e:  # noqa: BLE001
+                    if pid not in (0x07, 0x08, 0x09, 0x0B, 0x0D, 0x0F):
+                        acc.violate(f"manyunknown.floor.exc.{type(e).__name__}", ["manyunknown", "floor", pid, rnd], {"exc": repr(e)})
+        acc.ev(n)
+        acc.nt_counted(n)
+        acc.states += n
+        acc.transitions += n
+        acc.outcome("manyunknown-judged", n)
+        acc.sample({"distinct unknown verification-trailer command types": len(types), "floor protocol ids": 256})
     elif what == "gk":
         from ref import ndr64
 
@@ -563,6 +598,8 @@ def replay(case, seed, acc) -> None:
         v, det, _, _ = case_term(case[1], eps[case[1]], bytes.fromhex(case[2]))
         if v:
             acc.violate(v, case, det)
+    elif what == "manyunknown":
+        run_shard(["manyunknown"], "quick", seed, acc)
     elif what == "noend":
         base = {1: (1, 0, struct.pack("<I", 1)), 2: (2, 0, rpc.syntax_bytes(rpc.ISD_KEY) + rpc.syntax_bytes(rpc.NDR64)), 0x55: (0x55, 0, b"")}
         head = rpc.enc_vt([base[c] for c in case[1]])
